@@ -76,7 +76,28 @@ pub fn run_c01(cx: &Cx) -> PropResult {
         "containers are instantiated at the harness type `Live`, whose serialize/deserialize dispatch to the real impl of the concrete type; Vec/array of u8, i8, bool and () are instantiated statically".into(),
     ];
     r.extra = json!({"type_depth_bound": depth});
+    known_f16(&mut r);
     r
+}
+
+/// F16: a leap second seen through an offset that is not a whole number of minutes has a local time whose second is
+/// not 59; chrono cannot rebuild such a time from its fields, so the encoding does not decode (the generators keep
+/// such values out: DtFixed draws drop the leap when the offset shifts it off second 59)
+fn known_f16(r: &mut PropResult) {
+    use chrono::TimeZone;
+    let res = crate::run::guarded(|| {
+        let leap = chrono::NaiveDate::from_ymd_opt(2016, 12, 31).unwrap().and_hms_nano_opt(23, 59, 59, 1_500_000_000).unwrap();
+        let dt = chrono::FixedOffset::east_opt(30).unwrap().from_utc_datetime(&leap);
+        let bytes = desert::serialize_to_byte_vec(&dt).map_err(|e| vcat::errinfo(&e).kind)?;
+        desert::deserialize::<chrono::DateTime<chrono::FixedOffset>>(&bytes).map(|back| back == dt).map_err(|e| vcat::errinfo(&e).kind)
+    });
+    match res {
+        Ok(Ok(true)) => {}
+        other => {
+            r.lines.push(format!("KNOWN-FINDING: property=C01 F16 DateTime<FixedOffset> of a leap second under an offset of +00:00:30 does not round-trip ({other:?}): the local time 00:00:29.5 + leap is written as second 29 with nanos >= 10^9, which NaiveTime::from_hms_nano_opt rejects"));
+            *r.acc.known.entry("F16".into()).or_insert(0) += 1;
+        }
+    }
 }
 
 pub fn replay_c01(case: &Value) -> Verdict {
